@@ -24,6 +24,8 @@ TAGS = ("HP", "PS", "PQ")
 TAG_OPTS = [(), ("PS",), ("HP", "PQ"), ("PS", "HP", "PQ")]
 TAG_DEF = {"PS": ("FORMAT", "PS", "1", "Integer"), "HP": ("FORMAT", "HP", ".", "String"), "PQ": ("FORMAT", "PQ", "1", "Float")}
 NALT = 2
+WIDE_ALLELES = [1, 15, 16, 17]
+WIDE_ALTS = tuple("C" + "ACGT"[k % 4] * (1 + k // 4) for k in range(17))  # 17 distinct ALT alleles
 
 
 def build_doc(e, shape):
@@ -57,11 +59,20 @@ def build_doc(e, shape):
             if pl is not None:
                 p = pl[s]
                 gt = []
-                for j in range(p):
-                    if e.bit("r%d.s%d.a%d.missing" % (i, s, j)):
-                        gt.append(None)
-                    else:
-                        gt.append(e.int("r%d.s%d.a%d" % (i, s, j), 0, NALT))
+                if shape.get("wide"):
+                    # genotypes at the limits of whatshap.core.Genotype (allele index 16, ploidy 15 raise there): unphase must
+                    # not depend on them - a VCF may list any number of ALT alleles and any ploidy
+                    big = e.choice("r%d.s%d.big" % (i, s), WIDE_ALLELES)
+                    gt = [big] + [0] * (p - 1) if e.bit("r%d.s%d.bigfirst" % (i, s)) else [0] * (p - 1) + [big]
+                    e.cover("allele index >= 16" if big >= 16 else "allele index 15")
+                    if p >= 15:
+                        e.cover("ploidy >= 15")
+                else:
+                    for j in range(p):
+                        if e.bit("r%d.s%d.a%d.missing" % (i, s, j)):
+                            gt.append(None)
+                        else:
+                            gt.append(e.int("r%d.s%d.a%d" % (i, s, j), 0, NALT))
                 c["GT"] = tuple(gt)
                 c["phased"] = bool(e.bit("r%d.s%d.phased" % (i, s))) if p >= 2 else True
                 if p == 1:
@@ -93,7 +104,7 @@ def build_doc(e, shape):
             calls.append(c)
         if pl is not None and nsamp == 2 and pl[0] != pl[1]:
             e.cover("two samples with different ploidy")
-        r = dict(chrom="chr1", pos=pos, ref="A", alts=("C", "G"), format=fmt, calls=calls)
+        r = dict(chrom="chr1", pos=pos, ref="A", alts=WIDE_ALTS if shape.get("wide") else ("C", "G"), format=fmt, calls=calls)
         if rich:
             r.update(id="rs%d" % i, qual=e.int("r%d.qual" % i, 0, 99), filter=["q10"] if rich == 1 else ["PASS"], info={"DP": e.int("r%d.infoDP" % i, 0, 500)})
         else:
@@ -146,7 +157,7 @@ def oracle(e, doc, out1, out2, info):
                 ob.add(not (len(c1["GT"]) >= 2 and c1["phased"]), "output still has a phased genotype")
             for k in keep:
                 if k == "GT":
-                    ob.add(multiset_eq(c0["GT"], c1["GT"], range(NALT + 1)), "allele multiset of a genotype changed")
+                    ob.add(multiset_eq(c0["GT"], c1["GT"], sorted(set(range(NALT + 1)) | set(WIDE_ALLELES))), "allele multiset of a genotype changed")
                 else:
                     ob.add(deq(c0[k], c1[k]), "FORMAT value %s changed" % k)
     ob.add(deq(out2, out1), "second application changes the file (not idempotent)")
@@ -230,6 +241,7 @@ class Unphase(_Worlds, ScratchMixin, SubCheck):
         "whatshap.cli package __init__ replaced by an empty stub (BAM/FASTA readers are not reached by unphase)",
     ]
     required_cover = [
+        "allele index >= 16", "ploidy >= 15",
         "haploid call",
         "polyploid call",
         "partially missing GT",
@@ -268,6 +280,9 @@ class Unphase(_Worlds, ScratchMixin, SubCheck):
         if tier == "quick":
             out += [dict(fam="B", nsamp=2, records=[[4, 2]], tags=[3], rich=1, hv=1), dict(fam="B", nsamp=2, records=[[2, 4]], tags=[0], rich=0, hv=0)]
         out.append(dict(fam="B", nsamp=2, records=[None], rich=2))
+        # W: genotypes beyond the limits of the phasing core (allele index >= 16, ploidy >= 15)
+        for p in (2, 3, 14, 15, 16):
+            out.append(dict(fam="W", nsamp=1, records=[[p]], wide=True, tags=[3], rich=0, hv=0))
         # C: two records, one sample (record-to-record independence, records without GT next to records with GT)
         for a in (None, 2):
             for b in (None, 2, 3):
